@@ -276,6 +276,10 @@ class AsyncWorld:
 
         async def send(ev):
             sent.append(ev)
+            if ev.get('type') == 'http.response.start':
+                # the moment the answer is handed to the gateway: observers registered by a check look at the server now
+                for cb in getattr(w, 'on_response_start', []):
+                    cb(req, ev.get('status'))
 
         async def runner():
             try:
@@ -380,6 +384,9 @@ class AsyncWorld:
                 ws.accepted = True
                 ws.step_accept = w.nstep
             elif t == 'websocket.close':
+                if not ws.accepted:
+                    for cb in getattr(w, 'on_response_start', []):
+                        cb(ws, 401)
                 if getattr(ws, 'fail_close', False) and not ws.server_closed:
                     # the peer is gone: the gateway cannot write the close frame
                     sent[-1] = dict(ev, _refused=True)
